@@ -399,6 +399,34 @@ pub fn cmd_merge(arg: &str) -> String {
     r.unwrap_or_else(|| "PANIC".into())
 }
 
+/// mergebig <snapshots> <records-per-snapshot> : that many snapshots of that many records each (one IETF request
+/// per distinct address; the address space is shared across snapshots in halves so that merging matters), one
+/// receive_client_stats pass; prints how many addresses and how many requests the reporter holds and what is
+/// still queued
+pub fn cmd_mergebig(arg: &str) -> String {
+    let p: Vec<usize> = arg.trim().split(' ').map(|x| x.parse().unwrap()).collect();
+    let (nsnap, per) = (p[0], p[1]);
+    let r = guarded(move || {
+        let q = Arc::new(StatsQueue::new(nsnap.max(1)));
+        for k in 0..nsnap {
+            let mut s = PerClientStats::with_limit(per + 1);
+            // snapshot k covers addresses [k*per/2, k*per/2 + per): neighbouring snapshots overlap by half
+            let base = (k * per / 2) as u32;
+            for a in 0..per as u32 {
+                s.add_ietf_request(&IpAddr::from(Ipv4Addr::from(0x0a00_0000u32 + base + a)));   // distinct: ip() wraps at 2^16
+            }
+            let snap: Vec<ClientStats> = s.iter().map(|(_, c)| *c).collect();
+            q.force_push(snap);
+        }
+        let mut rep = Reporter::new(q.clone(), &Duration::from_secs(600), None);
+        rep.receive_client_stats();
+        let merged = rep.merged_client_stats();
+        let total: u64 = merged.iter().map(|c| c.rfc_requests as u64).sum();
+        format!("CLIENTS={} REQUESTS={} QUEUED={}", merged.len(), total, q.len())
+    });
+    r.unwrap_or_else(|| "PANIC".into())
+}
+
 /// squeue <cap> <limit> <op>|<op>|...   op = D | P:<ev,ev,...>
 /// One StatsQueue of the given capacity shared by "workers" (each P: a fresh PerClientStats, its
 /// snapshot published with force_push when non-empty, as Server::send_client_stats does) and one
